@@ -251,6 +251,15 @@ def differential(out, stream, cases, impl_out, model_out, expected, describe, no
             out.samples.append({"stream": stream, "case": clip(sample(c) if callable(sample) else c), "impl": clip(i)})
 
 
+import logging
+class FormattingSink(logging.Handler):
+    """what a real handler does with a record and a discarding one does not: it renders the message (so objects handed to the logger are
+    formatted: their __str__ / __repr__ run), then drops it; a formatting error is swallowed as logging does in production"""
+    def emit(self, record):
+        try: record.getMessage()
+        except Exception: pass
+
+
 SLOW = [0, 0.0]
 def bounded(fn):
     """calls into the library that normally take microseconds: after three calls that took more than a second each, the remaining
